@@ -27,6 +27,10 @@
 (*                        bind                                             *)
 (*   NilPacketSock FALSE: multiPacketListener keeps m.pc after closing it  *)
 (*                        (pinned): a re-acquired object is dead           *)
+(*   ErrAware      FALSE: the accept goroutine, giving up with the result of  *)
+(*                        a FAILED accept in its hands, calls Close on the *)
+(*                        nil connection it got with the error (first      *)
+(*                        version of the GiveUp repair): the process dies  *)
 (*   CloseWaits    FALSE: Close of a handle returns while accept/read      *)
 (*                        calls of that handle are still in flight; one of *)
 (*                        them may then take an item that arrives later    *)
@@ -45,7 +49,8 @@ CONSTANTS ForeignKeys,    \* keys whose address a foreign socket holds: binding 
           NItems,         \* connections / datagrams the environment may send
           NH,             \* handle slots
           MaxObj, MaxSock,
-          CbUnderLock, Capture, GiveUp, PreCheckClosed, NilPacketSock, CloseWaits
+          CbUnderLock, Capture, GiveUp, PreCheckClosed, NilPacketSock, CloseWaits, ErrAware,
+          AcceptErrors    \* how many accept calls the environment may fail with a non-closed error (EMFILE ...)
 
 VARIABLES foreign,                  \* keys whose address a foreign socket holds NOW (initially ForeignKeys; a "free" op releases one)
           script,                   \* chosen in Init
@@ -58,11 +63,12 @@ VARIABLES foreign,                  \* keys whose address a foreign socket holds
           gor,                      \* per-bind goroutine
           fate, nitems,             \* items (connections / datagrams)
           sentAfter,                \* item -> handles whose Close had returned when the item was sent
+          nerr,                     \* accept calls failed so far
           bad,                      \* set of property-violation tags observed
           tr                        \* schedule history <<proc, label>> (hidden by VIEW)
 
-vars == <<foreign, script, pc, ip, tobj, lch, tafter, mgrLock, mgrMap, obj, nobj, sock, nsock, chClosed, nch, hd, gor, fate, nitems, sentAfter, bad, tr>>
-View == <<foreign, script, pc, ip, tobj, lch, tafter, mgrLock, mgrMap, obj, nobj, sock, nsock, chClosed, nch, hd, gor, fate, nitems, sentAfter, bad>>
+vars == <<foreign, script, pc, ip, tobj, lch, tafter, mgrLock, mgrMap, obj, nobj, sock, nsock, chClosed, nch, hd, gor, fate, nitems, sentAfter, nerr, bad, tr>>
+View == <<foreign, script, pc, ip, tobj, lch, tafter, mgrLock, mgrMap, obj, nobj, sock, nsock, chClosed, nch, hd, gor, fate, nitems, sentAfter, nerr, bad>>
 
 G(g) == 100 + g        \* lock-holder id of goroutine g
 Objs == 1..MaxObj
@@ -85,7 +91,7 @@ Init == /\ script \in ScriptChoices /\ foreign = ForeignKeys
         /\ hd = [h \in HS |-> NoHd]
         /\ gor = [s \in Socks |-> NoGor]
         /\ fate = [i \in Items |-> [st |-> "new", at |-> 0]] /\ nitems = 0
-        /\ sentAfter = [i \in Items |-> {}]
+        /\ sentAfter = [i \in Items |-> {}] /\ nerr = 0
         /\ bad = {}
         /\ tr = <<>>
 
@@ -112,7 +118,7 @@ L1(t) == /\ pc[t] = "idle" /\ HasOp(t) /\ Op(t).a = "listen"
          /\ mgrLock' = t
          /\ pc' = [pc EXCEPT ![t] = "L2"]
          /\ Step(t, "L1")
-         /\ UNCHANGED <<foreign, script, ip, lch, tafter, sock, nsock, chClosed, nch, hd, gor, fate, nitems, sentAfter, bad>>
+         /\ UNCHANGED <<foreign, script, ip, lch, tafter, sock, nsock, chClosed, nch, hd, gor, fate, nitems, sentAfter, nerr, nerr, bad>>
 
 BoundElsewhere(k) == \E s \in Socks : sock[s].open /\ sock[s].key = k
 
@@ -148,7 +154,7 @@ L2(t) == /\ pc[t] = "L2"
          /\ mgrLock' = 0
          /\ Finish(t)
          /\ Step(t, "L2")
-         /\ UNCHANGED <<foreign, script, tobj, lch, tafter, mgrMap, nobj, chClosed, fate, nitems, sentAfter>>
+         /\ UNCHANGED <<foreign, script, tobj, lch, tafter, mgrMap, nobj, chClosed, fate, nitems, sentAfter, nerr>>
 
 (* -------------------------------- close --------------------------------- *)
 \* listeners.go:99-107 / 160-164: handle lock (kept until Close returns), mark closed, close closeCh
@@ -162,7 +168,7 @@ C1(t) == /\ pc[t] = "idle" /\ HasOp(t) /\ Op(t).a = "close"
                ELSE /\ hd' = [hd EXCEPT ![h].lock = t, ![h].chNil = TRUE, ![h].closeCh = TRUE, ![h].onClose = FALSE]
                     /\ pc' = [pc EXCEPT ![t] = IF CloseWaits THEN "C1w" ELSE "C2"] /\ UNCHANGED ip
          /\ Step(t, "C1")
-         /\ UNCHANGED <<foreign, script, tobj, lch, tafter, mgrLock, mgrMap, obj, nobj, sock, nsock, chClosed, nch, gor, fate, nitems, sentAfter, bad>>
+         /\ UNCHANGED <<foreign, script, tobj, lch, tafter, mgrLock, mgrMap, obj, nobj, sock, nsock, chClosed, nch, gor, fate, nitems, sentAfter, nerr, bad>>
 
 \* repaired code: Close waits (handle lock held) until no accept/read call of the handle is in flight; those calls are
 \* woken up by closeCh (A2closed is enabled for them) or complete a delivery that is already under way (A2recv)
@@ -171,7 +177,7 @@ C1w(t) == /\ pc[t] = "C1w"
           /\ ~InFlight(Op(t).h)
           /\ pc' = [pc EXCEPT ![t] = "C2"]
           /\ Step(t, "C1w")
-          /\ UNCHANGED <<foreign, script, ip, tobj, lch, tafter, mgrLock, mgrMap, obj, nobj, sock, nsock, chClosed, nch, hd, gor, fate, nitems, sentAfter, bad>>
+          /\ UNCHANGED <<foreign, script, ip, tobj, lch, tafter, mgrLock, mgrMap, obj, nobj, sock, nsock, chClosed, nch, hd, gor, fate, nitems, sentAfter, nerr, nerr, bad>>
 
 \* items still queued on a socket that is closed are reset (stream) / dropped (packet) by the kernel
 KillQueue(s, f) == [i \in Items |-> IF \E j \in 1..Len(sock[s].q) : sock[s].q[j] = i
@@ -205,7 +211,7 @@ C2(t) == /\ pc[t] = "C2"
                             /\ hd' = [hd EXCEPT ![h].lock = 0, ![h].st = "closed", ![h].closeDone = TRUE]
                             /\ Finish(t)
          /\ Step(t, "C2")
-         /\ UNCHANGED <<foreign, script, tobj, lch, tafter, mgrLock, mgrMap, nobj, nsock, nch, gor, nitems, sentAfter, bad>>
+         /\ UNCHANGED <<foreign, script, tobj, lch, tafter, mgrLock, mgrMap, nobj, nsock, nch, gor, nitems, sentAfter, nerr, bad>>
 
 \* listeners.go:361-365 / 385-389 manager callback: delete the map entry
 C4(t) == /\ pc[t] = "C4"
@@ -220,7 +226,7 @@ C4(t) == /\ pc[t] = "C4"
             /\ hd' = [hd EXCEPT ![h].lock = 0, ![h].st = "closed", ![h].closeDone = TRUE]
          /\ Finish(t)
          /\ Step(t, "C4")
-         /\ UNCHANGED <<foreign, script, tobj, lch, tafter, mgrLock, nobj, sock, nsock, chClosed, nch, gor, fate, nitems, sentAfter, bad>>
+         /\ UNCHANGED <<foreign, script, tobj, lch, tafter, mgrLock, nobj, sock, nsock, chClosed, nch, gor, fate, nitems, sentAfter, nerr, bad>>
 
 (* ------------------------- accept / read (API side) ---------------------- *)
 \* listeners.go:83-86 snapshot of acceptCh under the handle lock / start of ReadFrom
@@ -228,12 +234,12 @@ C4(t) == /\ pc[t] = "C4"
 FreeOp(t) == /\ pc[t] = "idle" /\ HasOp(t) /\ Op(t).a = "free"
              /\ foreign' = foreign \ {Op(t).k}
              /\ Finish(t) /\ Step(t, "Free")
-             /\ UNCHANGED <<script, tobj, lch, tafter, mgrLock, mgrMap, obj, nobj, sock, nsock, chClosed, nch, hd, gor, fate, nitems, sentAfter, bad>>
+             /\ UNCHANGED <<script, tobj, lch, tafter, mgrLock, mgrMap, obj, nobj, sock, nsock, chClosed, nch, hd, gor, fate, nitems, sentAfter, nerr, nerr, bad>>
 
 \* a script step on a handle whose listen failed is skipped by the driver
 SkipFailed(t) == /\ pc[t] = "idle" /\ HasOp(t) /\ Op(t).a = "accept" /\ hd[Op(t).h].st = "failed"
                  /\ Finish(t) /\ Step(t, "Skip")
-                 /\ UNCHANGED <<foreign, script, tobj, lch, tafter, mgrLock, mgrMap, obj, nobj, sock, nsock, chClosed, nch, hd, gor, fate, nitems, sentAfter, bad>>
+                 /\ UNCHANGED <<foreign, script, tobj, lch, tafter, mgrLock, mgrMap, obj, nobj, sock, nsock, chClosed, nch, hd, gor, fate, nitems, sentAfter, nerr, nerr, bad>>
 
 A1(t) == /\ pc[t] = "idle" /\ HasOp(t) /\ Op(t).a = "accept"
          /\ LET h == Op(t).h IN
@@ -245,7 +251,7 @@ A1(t) == /\ pc[t] = "idle" /\ HasOp(t) /\ Op(t).a = "accept"
                THEN /\ Finish(t)      \* repaired code: a closed handle refuses before offering a request
                ELSE /\ pc' = [pc EXCEPT ![t] = "A2"] /\ UNCHANGED ip
          /\ Step(t, "A1")
-         /\ UNCHANGED <<foreign, script, tobj, mgrLock, mgrMap, obj, nobj, sock, nsock, chClosed, nch, hd, gor, fate, nitems, sentAfter, bad>>
+         /\ UNCHANGED <<foreign, script, tobj, mgrLock, mgrMap, obj, nobj, sock, nsock, chClosed, nch, hd, gor, fate, nitems, sentAfter, nerr, nerr, bad>>
 
 Delivered(t, h, i) == /\ fate' = [fate EXCEPT ![i] = [st |-> "delivered", at |-> h]]
                       \* to a call that began after Close had returned, or an item that was sent only after Close had returned
@@ -258,7 +264,9 @@ A2recv(t) == /\ pc[t] = "A2"
                   /\ lch[t] # 0 /\ lch[t] \notin chClosed
                   /\ \/ /\ hd[h].kind = "s" /\ gor[g].pc = "send" /\ gor[g].sch = lch[t]
                         /\ gor' = [gor EXCEPT ![g].pc = IF Capture THEN "accept" ELSE "top", ![g].held = 0]
-                        /\ Delivered(t, h, gor[g].held)
+                        /\ IF gor[g].held > 0
+                           THEN Delivered(t, h, gor[g].held)
+                           ELSE UNCHANGED <<fate, bad>>       \* the accept error is returned to this call
                      \/ /\ hd[h].kind = "p" /\ gor[g].pc = "sel" /\ gor[g].sch = lch[t]
                         /\ gor' = [gor EXCEPT ![g].pc = "read", ![g].held = 0]
                         /\ IF gor[g].held > 0
@@ -268,7 +276,7 @@ A2recv(t) == /\ pc[t] = "A2"
                                 /\ UNCHANGED fate
              /\ Finish(t)
              /\ Step(t, "A2recv")
-             /\ UNCHANGED <<foreign, script, tobj, lch, tafter, mgrLock, mgrMap, obj, nobj, sock, nsock, chClosed, nch, hd, nitems, sentAfter>>
+             /\ UNCHANGED <<foreign, script, tobj, lch, tafter, mgrLock, mgrMap, obj, nobj, sock, nsock, chClosed, nch, hd, nitems, sentAfter, nerr>>
 
 \* select, branches "acceptCh closed" / "closeCh closed": the call fails with net.ErrClosed
 A2closed(t) == /\ pc[t] = "A2"
@@ -278,7 +286,7 @@ A2closed(t) == /\ pc[t] = "A2"
                   /\ bad' = IF hd[h].closeCh THEN bad ELSE bad \cup {"spurious-closed"}
                /\ Finish(t)
                /\ Step(t, "A2closed")
-               /\ UNCHANGED <<foreign, script, tobj, lch, tafter, mgrLock, mgrMap, obj, nobj, sock, nsock, chClosed, nch, hd, gor, fate, nitems, sentAfter>>
+               /\ UNCHANGED <<foreign, script, tobj, lch, tafter, mgrLock, mgrMap, obj, nobj, sock, nsock, chClosed, nch, hd, gor, fate, nitems, sentAfter, nerr>>
 
 (* ----------------------------- goroutines ------------------------------- *)
 \* stream, listeners.go:216-223: read m.ln under the object lock
@@ -287,7 +295,7 @@ Gtop(g) == /\ gor[g].pc = "top"
               /\ obj[o].lock = 0
               /\ gor' = [gor EXCEPT ![g].pc = IF obj[o].sock = 0 THEN "done" ELSE "accept", ![g].lnl = obj[o].sock]
            /\ Step(G(g), "Gtop")
-           /\ UNCHANGED <<foreign, script, pc, ip, tobj, lch, tafter, mgrLock, mgrMap, obj, nobj, sock, nsock, chClosed, nch, hd, fate, nitems, sentAfter, bad>>
+           /\ UNCHANGED <<foreign, script, pc, ip, tobj, lch, tafter, mgrLock, mgrMap, obj, nobj, sock, nsock, chClosed, nch, hd, fate, nitems, sentAfter, nerr, bad>>
 
 \* stream, listeners.go:224-229: AcceptStream returns a connection, or ErrClosed -> close(m.acceptCh)
 Gaccept(g) == /\ gor[g].pc = "accept"
@@ -307,16 +315,31 @@ Gaccept(g) == /\ gor[g].pc = "accept"
                          /\ bad' = IF c \in chClosed THEN bad \cup {"panic-close-of-closed-channel"} ELSE bad
                     /\ UNCHANGED <<sock, fate>>
               /\ Step(G(g), "Gaccept")
-              /\ UNCHANGED <<foreign, script, pc, ip, tobj, lch, tafter, mgrLock, mgrMap, obj, nobj, nsock, nch, hd, nitems, sentAfter>>
+              /\ UNCHANGED <<foreign, script, pc, ip, tobj, lch, tafter, mgrLock, mgrMap, obj, nobj, nsock, nch, hd, nitems, sentAfter, nerr>>
+
+\* stream: accept fails with an error other than "closed" (EMFILE, ECONNABORTED ...): the connection stays queued, the
+\* goroutine goes to its channel operation with <nil connection, error> in its hands (held = -2)
+GacceptErr(g) == /\ gor[g].pc = "accept" /\ nerr < AcceptErrors
+                 /\ LET s == gor[g].lnl
+                        o == gor[g].o IN
+                    /\ sock[s].open /\ Len(sock[s].q) > 0
+                    /\ gor' = [gor EXCEPT ![g].pc = "send", ![g].held = 0 - 2,
+                                          ![g].sch = IF Capture THEN gor[g].sch ELSE obj[o].ch,
+                                          ![g].sdone = IF Capture THEN gor[g].sdone ELSE obj[o].done]
+                 /\ nerr' = nerr + 1
+                 /\ Step(G(g), "GacceptErr")
+                 /\ UNCHANGED <<foreign, script, pc, ip, tobj, lch, tafter, mgrLock, mgrMap, obj, nobj, sock, nsock, chClosed, nch, hd, fate, nitems, sentAfter, bad>>
 
 \* repaired code only: the goroutine gives up when everybody has gone and closes the connection it holds
 Ggiveup(g) == /\ GiveUp
               /\ gor[g].pc = "send" /\ gor[g].sdone \in chClosed
               /\ gor' = [gor EXCEPT ![g].pc = "done", ![g].held = 0]
-              /\ fate' = [fate EXCEPT ![gor[g].held] = [st |-> "srvclosed", at |-> 0]]
+              /\ fate' = IF gor[g].held > 0 THEN [fate EXCEPT ![gor[g].held] = [st |-> "srvclosed", at |-> 0]] ELSE fate
+              \* with the result of a failed accept in its hands there is no connection to close
+              /\ bad' = IF gor[g].held < 0 /\ ~ErrAware THEN bad \cup {"panic-close-of-nil-connection"} ELSE bad
               /\ chClosed' = chClosed \cup {gor[g].sch}
               /\ Step(G(g), "Ggiveup")
-              /\ UNCHANGED <<foreign, script, pc, ip, tobj, lch, tafter, mgrLock, mgrMap, obj, nobj, sock, nsock, nch, hd, nitems, sentAfter, bad>>
+              /\ UNCHANGED <<foreign, script, pc, ip, tobj, lch, tafter, mgrLock, mgrMap, obj, nobj, sock, nsock, nch, hd, nitems, sentAfter, nerr>>
 
 \* packet, listeners.go:290: m.pc.ReadFrom returns a datagram, or an error once the socket is closed
 Pread(g) == /\ gor[g].pc = "read"
@@ -332,14 +355,14 @@ Pread(g) == /\ gor[g].pc = "read"
                   /\ gor' = [gor EXCEPT ![g].pc = "sel", ![g].held = -1, ![g].sch = c, ![g].sdone = d]
                   /\ UNCHANGED <<sock, fate>>
             /\ Step(G(g), "Pread")
-            /\ UNCHANGED <<foreign, script, pc, ip, tobj, lch, tafter, mgrLock, mgrMap, obj, nobj, nsock, chClosed, nch, hd, nitems, sentAfter, bad>>
+            /\ UNCHANGED <<foreign, script, pc, ip, tobj, lch, tafter, mgrLock, mgrMap, obj, nobj, nsock, chClosed, nch, hd, nitems, sentAfter, nerr, bad>>
 
 \* packet, listeners.go:300-301: doneCh closed -> the goroutine exits (a datagram it holds is dropped)
 Pdone(g) == /\ gor[g].pc = "sel" /\ gor[g].sdone \in chClosed
             /\ gor' = [gor EXCEPT ![g].pc = "done", ![g].held = 0]
             /\ fate' = IF gor[g].held > 0 THEN [fate EXCEPT ![gor[g].held] = [st |-> "dropped", at |-> 0]] ELSE fate
             /\ Step(G(g), "Pdone")
-            /\ UNCHANGED <<foreign, script, pc, ip, tobj, lch, tafter, mgrLock, mgrMap, obj, nobj, sock, nsock, chClosed, nch, hd, nitems, sentAfter, bad>>
+            /\ UNCHANGED <<foreign, script, pc, ip, tobj, lch, tafter, mgrLock, mgrMap, obj, nobj, sock, nsock, chClosed, nch, hd, nitems, sentAfter, nerr, bad>>
 
 (* ----------------------------- environment ------------------------------ *)
 Connect(k) == /\ nitems < NItems
@@ -353,7 +376,7 @@ Connect(k) == /\ nitems < NItems
                  ELSE /\ fate' = [fate EXCEPT ![nitems + 1] = [st |-> "refused", at |-> 0]]
                       /\ UNCHANGED sock
               /\ Step(0, "Connect" \o ToString(k))
-              /\ UNCHANGED <<foreign, script, pc, ip, tobj, lch, tafter, mgrLock, mgrMap, obj, nobj, nsock, chClosed, nch, hd, gor, bad>>
+              /\ UNCHANGED <<foreign, script, pc, ip, tobj, lch, tafter, mgrLock, mgrMap, obj, nobj, nsock, chClosed, nch, hd, gor, nerr, bad>>
 
 AllDone == \A t \in Threads : pc[t] = "idle" /\ ~HasOp(t)
 \* a call legitimately waiting for traffic on an open handle is not a deadlock
@@ -361,7 +384,7 @@ Parked(t) == pc[t] = "A2" /\ ~hd[Op(t).h].closeCh
 Terminal == (\A t \in Threads : (pc[t] = "idle" /\ ~HasOp(t)) \/ Parked(t)) /\ UNCHANGED vars
 
 ThreadStep == \E t \in Threads : FreeOp(t) \/ SkipFailed(t) \/ L1(t) \/ L2(t) \/ C1(t) \/ C1w(t) \/ C2(t) \/ C4(t) \/ A1(t) \/ A2recv(t) \/ A2closed(t)
-GorStep == \E g \in Socks : Gtop(g) \/ Gaccept(g) \/ Ggiveup(g) \/ Pread(g) \/ Pdone(g)
+GorStep == \E g \in Socks : Gtop(g) \/ Gaccept(g) \/ GacceptErr(g) \/ Ggiveup(g) \/ Pread(g) \/ Pdone(g)
 EnvStep == \E k \in Keys : Connect(k)
 
 Next == ThreadStep \/ GorStep \/ EnvStep \/ Terminal
